@@ -25,7 +25,7 @@ def run(run):
     C.build_driver()
     h, d = C.Harness(), C.Driver()
     rng = run.rng
-    nproj = 2 if run.tier == "quick" else 8
+    nproj = 2 if run.depth == "quick" else 8
     mism = []
     try:
         for pi in range(nproj):
@@ -63,7 +63,7 @@ def run(run):
                         r, t = results(a)
                         base[atom_text(a)] = (set(r["real"] or []), r, t)
                     subs = list(atoms)
-                    if run.tier == "thorough":
+                    if run.depth == "thorough":
                         subs += [QG.mk("and", atoms[0], atoms[1]), QG.mk("or", atoms[1], atoms[2]), QG.mk("not", atoms[2])]
                     cache = {}
 
